@@ -73,7 +73,7 @@ func sweepWL(c *Ctx, b builtWL, budget int) wlSweep {
 
 func genSweepableWL(r *Rng, budget int, forC06 bool) WLCfg {
 	for {
-		lo := listOpt{min: 1, max: 7, twins: 0.2, precap: 0.15, caseless: 0.15, dups: 0.15}
+		lo := listOpt{min: 1, max: 7, twins: 0.2, precap: 0.15, caseless: 0.15, dups: 0.15, raw: 0.06}
 		if r.Chance(0.35) {
 			lo.forceAllCap = true
 		}
@@ -171,7 +171,7 @@ func init() {
 					cc := genLargeCharCfg(r)
 					s.Char = &cc
 				} else {
-					w := genWLCfg(r, wlOpt{list: listOpt{min: 1, max: 9, twins: 0.2, precap: 0.15, caseless: 0.15, dups: 0.1}, maxLen: 4})
+					w := genWLCfg(r, wlOpt{list: listOpt{min: 1, max: 9, twins: 0.2, precap: 0.15, caseless: 0.15, dups: 0.1, raw: 0.06}, maxLen: 4})
 					if w.Sep.Kind == "altempty" || w.Sep.law() == nil {
 						w.Sep = SepCfg{Kind: "preset", Preset: pick(r, presetNames)}
 					}
@@ -438,7 +438,7 @@ func runC06Large(c *Ctx, s *C06Spec) {
 		cfg := *s.Char
 		rec := cfg.Recipe()
 		m := modelChar(cfg)
-		if len(m.A) == 0 || len(m.Req) > 8 {
+		if len(m.A) == 0 || len(m.Req) > 14 {
 			return
 		}
 		cnt := m.Count()
